@@ -87,11 +87,15 @@ def interp(func, arg_form):
             return ("R",)
         raise OutOfVocabulary("matrix outside vocabulary: " + show(n))
 
+    env = {}
+
     def vec(n):
-        n = strip(n)
+        n = strip(n, also=("CXXConstructExpr",))
         k = n["k"]
         if k == "DeclRefExpr" and n["name"] == param:
             return dict(arg_form)
+        if k == "DeclRefExpr" and n["name"] in env:
+            return dict(env[n["name"]])
         if k == "MemberExpr" and n["name"] == "tra_":
             return {("t", ()): Fraction(1)}
         if k == "CXXOperatorCallExpr" and n.get("oop") in ("+", "-") and len(n["c"]) == 3:
@@ -120,6 +124,10 @@ def interp(func, arg_form):
             return scale(vec(n["c"][1]), -1)
         raise OutOfVocabulary("vector expression outside vocabulary: %s (%s)" % (show(n), k))
 
+    # local vector variables initialised before the return (single assignment, straight line)
+    for vd in find_all(ast, "VarDecl"):
+        if vd["c"] and vd["c"][0] is not None and "Array<double, 3>" in vd.get("ty", "").replace("celeritas::", ""):
+            env[vd["name"]] = vec(vd["c"][0])
     return vec(rets[0]["c"][0])
 
 
